@@ -457,6 +457,42 @@ func genRelaySrc(repo string) (string, error) {
 	}
 	out.WriteString("].\n")
 	fmt.Fprintf(&out, "(* only a closed connection, a time-out without bytes and an error other than io.EOF / time-out return before onRead;\n   onRead(bytesRead) follows the block *)\nDefinition doread_eof_delivers : bool := %s.\n", CoqBool(same && onReadAfter))
+	// ---- write deadline: armed afresh (now + DefaultConnWriteTimeout) in front of EVERY raw write
+	swd := FindFunc(f2, "connection", "setWriteDeadline")
+	if swd == nil {
+		return "", fmt.Errorf("setWriteDeadline not found")
+	}
+	const wantSWD = `{ switch c.network { case "udp": c.rawConnection.SetWriteDeadline(time.Now().Add(types.DefaultUDPIdleTimeout)) default: c.rawConnection.SetWriteDeadline(time.Now().Add(types.DefaultConnWriteTimeout)) } }`
+	fresh := exprStr(fset2, swd.Body) == wantSWD
+	nWrites, nArmed := 0, 0
+	ast.Inspect(f2, func(n ast.Node) bool {
+		var list []ast.Stmt
+		switch b := n.(type) {
+		case *ast.BlockStmt:
+			list = b.List
+		case *ast.CaseClause:
+			list = b.Body
+		case *ast.CommClause:
+			list = b.Body
+		default:
+			return true
+		}
+		for i, st := range list {
+			as, ok := st.(*ast.AssignStmt)
+			if !ok || len(as.Rhs) != 1 || exprStr(fset2, as.Rhs[0]) != "c.doWrite()" {
+				continue
+			}
+			nWrites++
+			if i > 0 {
+				if es, ok := list[i-1].(*ast.ExprStmt); ok && exprStr(fset2, es.X) == "c.setWriteDeadline()" {
+					nArmed++
+				}
+			}
+		}
+		return true
+	})
+	fmt.Fprintf(&out, "(* setWriteDeadline arms time.Now().Add(DefaultConnWriteTimeout) unconditionally (no cached / conditional deadline): %v;\n   raw writes (c.doWrite()): %d, of which directly preceded by c.setWriteDeadline(): %d *)\n", fresh, nWrites, nArmed)
+	fmt.Fprintf(&out, "Definition write_deadline_fresh : bool := %s.\n", CoqBool(fresh && nWrites > 0 && nWrites == nArmed))
 	out.WriteString("Definition RelaySrc_translator_ok := true.\n")
 	return out.String(), nil
 }
